@@ -210,7 +210,7 @@ func runCloneOf(o Outcome, mk func() *rtp.Packet) Outcome {
 func init() {
 	register(&Prop{
 		ID:       "C20",
-		Rule:     "well-formed packets as in C01 with every field populated, one in eight taken from Unmarshal of a wire image, one in ten from a receiver that decoded two wire images in a row (plus fixed wires with one-byte id-0 elements, in-block padding, legacy and empty blocks), with and without a payload slice (nil), a third of the extension-carrying headers with a Set/Del history before the clone (element list emptied or shrunk); observable = the clone and, per slice, whether its memory is disjoint from the original's; oracle = equality incl. padding size and PayloadOffset, then every single mutation (payload bytes, each CSRC entry, each extension value byte, SetExtension / DelExtension of each id, SetExtension of a new id) applied to the original and to the clone, each followed by a SetExtension on the other side; non-trivial = has CSRCs, an extension or a payload",
+		Rule:     "well-formed packets as in C01 with every field populated, one in eight taken from Unmarshal of a wire image, one in ten from a receiver that decoded two wire images in a row (plus fixed wires with one-byte id-0 elements, in-block padding, legacy and empty blocks), with and without a payload slice (nil), one in eight with a padding flag and a padding size that do not go together, a third of the extension-carrying headers with a Set/Del history before the clone (element list emptied or shrunk); observable = the clone and, per slice, whether its memory is disjoint from the original's; oracle = equality incl. padding size and PayloadOffset, then every single mutation (payload bytes, each CSRC entry, each extension value byte, SetExtension / DelExtension of each id, SetExtension of a new id) applied to the original and to the clone, each followed by a SetExtension on the other side; non-trivial = has CSRCs, an extension or a payload",
 		Quick:    3000,
 		Thorough: 100000,
 		Gen: func(r *RNG, tier string, n int, emit func(op int, toks ...Tok)) {
@@ -229,6 +229,8 @@ func init() {
 				emit(2003, TBytes(w))
 			}
 			emit(2003, TBytes([]byte{0xA0, 0x60, 0, 1, 0, 0, 0, 2, 0, 0, 0, 3, 0x99, 0, 0, 3}))
+			emit(2001, hdrDesc{version: 2, pt: 96, padding: false}.tok(), TB([]byte{1, 2, 3}), TI(4))
+			emit(2001, hdrDesc{version: 2, pt: 96, padding: true}.tok(), TB([]byte{1, 2, 3}), TI(0))
 			// a reused receiver: a packet with extensions and CSRCs, then one without
 			emit(2004, TBytes(usedReceiverWires[0]), TBytes(usedReceiverWires[2]))
 			emit(2004, TBytes(usedReceiverWires[1]), TBytes(append(append([]byte{}, usedReceiverWires[2]...), 0x42, 0x43)))
@@ -246,6 +248,11 @@ func init() {
 				d, pl, pad := genWfPacket(c)
 				if c.Intn(6) == 0 {
 					pl = nil // no payload slice at all (padding-only packets are built like this)
+				}
+				if c.Intn(8) == 0 {
+					// "every packet": also one whose padding flag and padding size do not go together (a size without
+					// the flag, the flag without a size) - Clone copies fields, it does not judge them
+					d.padding = !d.padding
 				}
 				if c.Intn(3) == 0 && d.ext && (d.profile == 0xBEDE || isTwoByte(d.profile)) {
 					// a header with a history: delete some or all elements, maybe set one again
